@@ -7,7 +7,7 @@ import random
 from coqemit import cbool, clist, cstr, cstrlist
 
 ID = "C10"
-FACTS = ["Conflicts"]
+FACTS = ["Conflicts", "OptStrSrc"]
 COQ_HEADER = "From SPV Require Import CorrDefs.CorrC10."
 COQ_CASE_TYPE = "case"
 RULE = ("all 3 dash variants x 3 generation modes x 2 nested modes x {parse(), ArgumentParser} x dataclass trees of depth <= 3 without "
